@@ -330,8 +330,10 @@ func runC11(p *core.Program, r *core.Report) {
 	r.Rule("C11.double-order", "the double queue tests and serves queue 1 before queue 2 on every path", 2)
 	r.Rule("C11.backing", "the linked list behind the queues keeps first/last/size consistent on every path of insert, unlink and clear (C13.linked on util/list.LinkedList): nothing is stranded behind a dead node", 4)
 	r.Rule("C11.timeout", "timed get leaves its retry loop empty-handed only when the remaining time is <= 0", 2)
+	r.Rule("C11.ctor", "a constructor stores each capacity it is given into that queue's capacity field as it is (0 and negative stay 'unbounded'; one lane's limit is not another's)", 2)
 
 	pk := p.Pkg("util/queue")
+	c11Ctors(p, r)
 	if pk == nil {
 		r.Undec("C11.capacity", "util/queue", "-", "package not found")
 		return
@@ -700,6 +702,19 @@ func c11GetNoWait(r *core.Report, name, pos string, ps []paths.Path) {
 		} else if !pa.HasArg("RETVAL", "nil") {
 			ok = false
 			why = append(why, "an empty path does not return nil: "+pa.String())
+		} else {
+			// empty-handed only because the list itself was found empty (not on the word of a counter
+			// or flag kept beside it)
+			sawEmpty := false
+			for _, e := range pa {
+				if e.Kind == "COND" && strings.HasPrefix(e.Arg, "size") && (strings.HasSuffix(e.Arg, ">0=false") || strings.HasSuffix(e.Arg, "<=0=true") || strings.HasSuffix(e.Arg, "==0=true")) {
+					sawEmpty = true
+				}
+			}
+			if !sawEmpty {
+				ok = false
+				why = append(why, "returns nil on a path that never found the queue itself empty: "+pa.String())
+			}
 		}
 	}
 	if ok {
@@ -864,6 +879,109 @@ func (q *queueCtx) resolveRetvals(ps []paths.Path) {
 			if e.Kind == "RETVAL" && e.Arg != "" && pa[:i].HasArg("FLAG", e.Arg+"==nil=true") {
 				e.Arg = "nil"
 			}
+		}
+	}
+}
+
+// c11Ctors: every integer capacity field of a queue is assigned, in each constructor that sets it, from
+// an integer parameter the constructor never assigns (or from a constant), and no two capacity fields
+// of one constructor come from the same parameter.
+func c11Ctors(p *core.Program, r *core.Report) {
+	pk := p.Pkg("util/queue")
+	if pk == nil {
+		return
+	}
+	for _, fi := range p.Funcs {
+		if fi.Pkg != pk || fi.Decl.Body == nil || core.RecvNamed(fi.Obj) != nil || core.IsCanaryFile(p.Fset.Position(fi.Decl.Pos()).Filename) {
+			continue
+		}
+		info := fi.Pkg.TypesInfo
+		params := map[types.Object]bool{}
+		for _, f := range fi.Decl.Type.Params.List {
+			for _, nm := range f.Names {
+				params[info.Defs[nm]] = true
+			}
+		}
+		// parameters the constructor changes
+		changed := map[types.Object]bool{}
+		ast.Inspect(fi.Decl.Body, func(n ast.Node) bool {
+			switch v := n.(type) {
+			case *ast.AssignStmt:
+				for _, l := range v.Lhs {
+					if id, ok := ast.Unparen(l).(*ast.Ident); ok && params[info.ObjectOf(id)] {
+						changed[info.ObjectOf(id)] = true
+					}
+				}
+			case *ast.IncDecStmt:
+				if id, ok := ast.Unparen(v.X).(*ast.Ident); ok && params[info.ObjectOf(id)] {
+					changed[info.ObjectOf(id)] = true
+				}
+			}
+			return true
+		})
+		var probs []string
+		from := map[types.Object]string{}
+		sets := 0
+		type capSet struct {
+			name *ast.Ident
+			rhs  ast.Expr
+		}
+		var capSets []capSet
+		ast.Inspect(fi.Decl.Body, func(n ast.Node) bool {
+			switch v := n.(type) {
+			case *ast.AssignStmt:
+				if len(v.Lhs) == len(v.Rhs) {
+					for i, l := range v.Lhs {
+						if sel, ok := ast.Unparen(l).(*ast.SelectorExpr); ok {
+							capSets = append(capSets, capSet{sel.Sel, v.Rhs[i]})
+						}
+					}
+				}
+			case *ast.CompositeLit:
+				for _, el := range v.Elts {
+					if kv, ok := el.(*ast.KeyValueExpr); ok {
+						if kid, ok := kv.Key.(*ast.Ident); ok {
+							capSets = append(capSets, capSet{kid, kv.Value})
+						}
+					}
+				}
+			}
+			return true
+		})
+		func() {
+			for _, cs := range capSets {
+				sel := struct{ Sel *ast.Ident }{cs.name}
+				as := struct{ Rhs []ast.Expr }{[]ast.Expr{cs.rhs}}
+				i := 0
+				if !strings.Contains(strings.ToLower(sel.Sel.Name), "capacity") {
+					continue
+				}
+				fv, ok := info.ObjectOf(sel.Sel).(*types.Var)
+				if !ok || !fv.IsField() {
+					continue
+				}
+				sets++
+				rhs := ast.Unparen(stripConvs(info, as.Rhs[i]))
+				if _, isC := constIntOf(info, rhs); isC {
+					continue
+				}
+				id, ok := rhs.(*ast.Ident)
+				if !ok || !params[info.ObjectOf(id)] {
+					probs = append(probs, fmt.Sprintf("%s is set from `%s`, not from the capacity the caller gave", sel.Sel.Name, types.ExprString(as.Rhs[i])))
+					continue
+				}
+				po := info.ObjectOf(id)
+				if changed[po] {
+					probs = append(probs, fmt.Sprintf("%s is set from the parameter %s after the constructor changed it: the capacity in force is not the one the caller asked for (0 or less means unbounded)", sel.Sel.Name, id.Name))
+				}
+				if prev, dup := from[po]; dup && prev != sel.Sel.Name {
+					probs = append(probs, fmt.Sprintf("%s and %s are both set from the parameter %s", prev, sel.Sel.Name, id.Name))
+				}
+				from[po] = sel.Sel.Name
+			}
+		}()
+		if sets > 0 {
+			fileProbs(r, "C11.ctor", "util/queue."+fi.Obj.Name(), p.Pos(fi.Decl.Pos()), uniq(probs), fmt.Sprintf("%d capacity field(s) set from the caller's values unchanged", sets))
 		}
 	}
 }
